@@ -60,6 +60,7 @@ STD_CELLS = [
     ("prior-sampling", "G2u", {"prior_sampling": True}),
     ("prior-sampling-checkpointing", "G2u", {"prior_sampling": True, "checkpointing": True}),
     # proposal parameter order differs from the model's (only the second parameter is named, the first is appended by default) on a model without exchange symmetry
+    ("asym-bounds-dict-reordered", "G2ar", {}),
     ("asym-reordered-reparam", "G2a", {"reparameterisations": {"x1": "default"}}),
     ("asym-reordered-logit-zscore", "G2a", {"reparameterisations": {"x1": "logit", "x0": "zscore"}}),
     ("logL-minus-2000", "G2o", {}),
@@ -71,7 +72,7 @@ STD_CELLS = [
 QUICK_STD = ["default-G2u", "default-G4u", "nonuniform-analytic", "nonuniform-rejection-box-draws", "constrained-prior", "constrained-prior-leaky-uninformed", "flat-direction-prime-prior", "bimodal-default", "ties-nlive50", "ties-analytic", "gw-proposal", "clustering", "augmented-marginalised", "augmented", "augmented-3-dims", "augmented-2-dims-logit", "no-uninformed",
              "latent-nball", "latent-gaussian", "latent-flow", "radius-worst-point", "radius-min-max", "truncate-log-q", "accumulate-weights", "drawsize-small",
              "reparam-logit", "reparam-inversion-split", "reparam-inversion-duplicate", "reparam-angle", "flow-maf", "flow-nsf", "nlive-10", "nlive-300",
-             "memory", "reset-weights", "uninformed-50", "shrinkage-t", "pool-2", "capped-300", "prior-sampling", "prior-sampling-checkpointing", "asym-reordered-reparam", "asym-reordered-logit-zscore", "logL-minus-2000", "logL-plus-900", "tolerance-loose"]
+             "memory", "reset-weights", "uninformed-50", "shrinkage-t", "pool-2", "capped-300", "prior-sampling", "prior-sampling-checkpointing", "asym-bounds-dict-reordered", "asym-reordered-reparam", "asym-reordered-logit-zscore", "logL-minus-2000", "logL-plus-900", "tolerance-loose"]
 
 
 GEN_AXES = dict(
@@ -186,6 +187,9 @@ INS_CELLS = [
     ("ins-edge-peaked-noreparam-clip", "G2e", {"reparameterisation": None, "clip": True, "max_iteration": 8}, None),
     ("ins-edge-peaked-logit-maf", "G2e", {"flow_config": {"ftype": "maf"}, "max_iteration": 8}, None),
     ("ins-gw5", "GW5", {"nlive": 400, "min_samples": 100, "max_iteration": 8}, None),
+    # no i.i.d. set, and the kept part of the live set falls below the training floor (cap below the floor / fixed update index)
+    ("ins-no-iid-max-samples-below-floor", "G2u", {"draw_iid_live": False, "min_samples": 150, "max_samples": 300}, None),
+    ("ins-no-iid-n-update-below-floor", "G2u", {"draw_iid_live": False, "n_update": 150, "min_samples": 100}, None),
     # likelihood exactly zero over ~80 % of the prior, training-set floor close to nlive
     ("ins-zero-likelihood-region-min-samples", "G2h", {"min_samples": 150}, None),
     ("ins-zero-likelihood-region-strict", "G2h", {"min_samples": 120, "strict_threshold": True, "min_remove": 10}, None),
